@@ -52,6 +52,7 @@ func progOptsFor(seed uint64) progOpts {
 		repeat:     r.chance(2, 5),
 		goroutines: r.chance(1, 7),
 		cleanups:   r.chance(1, 4),
+		customFail: r.chance(1, 3),
 	}
 }
 
@@ -133,12 +134,13 @@ func firstWords(s string, n int) string {
 func c05Opts(seed uint64) progOpts {
 	r := newRng(seed, 0xc05)
 	return progOpts{
-		rejecting: r.chance(1, 3),
-		sites:     r.between(2, 4),
-		nonFatal:  r.chance(1, 2),
-		repeat:    r.chance(1, 4),
-		siblings:  r.chance(1, 3),
-		failDen:   r.between(3, 9),
+		rejecting:  r.chance(1, 3),
+		sites:      r.between(2, 4),
+		nonFatal:   r.chance(1, 2),
+		repeat:     r.chance(1, 4),
+		siblings:   r.chance(1, 3),
+		failDen:    r.between(3, 9),
+		customFail: r.chance(1, 3),
 	}
 }
 
